@@ -85,11 +85,11 @@ func VH_C07_count() {
 	vAssert(int(vm.NumOpCount) >= vm.codeIndex-1+vDrawCount(), "counter-covers-every-die")
 }
 
-//vh:prop=C07 tiers=quick,thorough sigkeys=kind,n maxsteps=600000000 maxdepth=100000 budget_s=1500 bounds="capacity boundaries as concrete programs: sums of n terms around the 8192-instruction limit (n = 4094..4098), array literals and ranges of 511..513 elements, concatenation and repetition across 512, operand stack across 1000 (array literals of 997..1001 elements), parse budget 10/100 on short programs: each is either evaluated completely (the value is the full program's value) or rejected with an error - never a value from a truncated program"
+//vh:prop=C07 tiers=quick,thorough sigkeys=kind,n maxsteps=600000000 maxdepth=100000 budget_s=1500 bounds="capacity boundaries as concrete programs: sums of n terms around the 8192-instruction limit (n = 4094..4098) at top level, inside a function body and inside a computed value, array literals and ranges of 511..513 elements, concatenation and repetition across 512, operand stack across 1000 (array literals of 997..1001 elements), parse budget 10/100 on short programs: each is either evaluated completely (the value is the full program's value) or rejected with an error - never a value from a truncated program"
 func VH_C07_cap() {
 	kind := vParam("kind", -1)
 	if kind < 0 {
-		kind = vChoice("kind", 7)
+		kind = vChoice("kind", 9)
 	}
 	vm := vNewVM()
 	vm.Config.OpCountLimit = 10000000
@@ -139,6 +139,20 @@ func VH_C07_cap() {
 		if err == nil {
 			v, ok := vm.Ret.ReadInt()
 			vAssert(ok && int(v) == n, "wide-literal-complete-or-rejected")
+		}
+	case 7: // code size inside a function body
+		n := 4095 + vChoice("n", 3)
+		err := vm.Run("func fn1() { 1" + strings.Repeat("+1", n) + " }; fn1()")
+		if err == nil {
+			v, ok := vm.Ret.ReadInt()
+			vAssert(ok && int(v) == n+1, "long-function-body-complete-or-rejected")
+		}
+	case 8: // code size inside a computed value
+		n := 4095 + vChoice("n", 3)
+		err := vm.Run("&v1 = 1" + strings.Repeat("+1", n) + "; v1")
+		if err == nil {
+			v, ok := vm.Ret.ReadInt()
+			vAssert(ok && int(v) == n+1, "long-computed-body-complete-or-rejected")
 		}
 	case 6: // parse budget
 		vm.Config.ParseExprLimit = []uint64{10, 100, 1000}[vChoice("n", 3)]
